@@ -58,3 +58,49 @@ def stock_minute_index(hm):
     if t <= 11 * 60 + 30:
         return t - (9 * 60 + 31)
     return 120 + t - (13 * 60 + 1)
+
+
+import re as _re
+_LONG = _re.compile(r'\d{12,}')
+
+
+def normalise_ids(trace):
+    """order and trade ids come from two time-seeded process-wide counters: rename them by order of first appearance"""
+    oids, eids = {}, {}
+    OK = ('id', 'order_id', 'target')
+
+    def collect(x):
+        if isinstance(x, dict):
+            for k, v in x.items():
+                if isinstance(v, int) and not isinstance(v, bool) and v > 10 ** 9:
+                    if k in OK:
+                        oids.setdefault(v, 'o%d' % len(oids))
+                    elif k == 'exec_id':
+                        eids.setdefault(v, 'e%d' % len(eids))
+                collect(v)
+        elif isinstance(x, (list, tuple)):
+            for v in x:
+                collect(v)
+
+    def sub(x, key=None):
+        if isinstance(x, dict):
+            return {oids.get(_as_int(k), k): sub(v, k) for k, v in x.items()}
+        if isinstance(x, (list, tuple)):
+            return [sub(v, key) for v in x]
+        if isinstance(x, str) and any(c.isdigit() for c in x):
+            return _LONG.sub(lambda m: str(oids.get(int(m.group(0)), m.group(0))), x)
+        if isinstance(x, int) and not isinstance(x, bool):
+            if key in OK:
+                return oids.get(x, x)
+            if key == 'exec_id':
+                return eids.get(x, x)
+        return x
+    collect(trace)
+    return sub(trace)
+
+
+def _as_int(k):
+    try:
+        return int(k)
+    except (TypeError, ValueError):
+        return None
